@@ -3,7 +3,7 @@
    All statements are about the model instantiated with the Unicode tables of the Go toolchain
    (Consts.v): go_is_letter, go_is_number, go_to_lower. *)
 From Coq Require Import List Bool NArith.
-From C11 Require Import Model ProofsText ProofsPath ProofsGo.
+From C11 Require Import Model ModelDoc ProofsText ProofsPath ProofsGo.
 Open Scope N_scope.
 
 (* Lower-casing agrees on both sides for EVERY byte string (valid UTF-8 or not, including runes whose
@@ -150,3 +150,107 @@ Example C11_keyword_nonvacuous :
   (length v <= limit_of (max_tok c) 0)%nat /\ has_rune WildcardRune v = false /\
   fst (kw_tokenize go_to_lower c 0 v) = [[105; 120]] /\ qkw go_to_lower (cs c) v = [TText [105; 120]].
 Proof. exact kw_nonvacuous. Qed.
+
+(* ================================================================= phase 2 *)
+
+(* The indexer's traversal. `reach m [] doc f x`: walking the document the way the property describes it
+   (into objects, tag arrays {key,value}, nested arrays; names joined by dots) meets field f with value
+   bytes x. Then ONE meta of the document (the parent's, or the one created for the nested element)
+   holds, for EVERY title of f's mapping entry whose type has a tokenizer (multi-type fields):
+   `_exists_:<title>`, and all tokens of that title's tokenizer applied to the value as this tokenizer sees
+   it — so every query that finds the value among the tokenizer's own tokens (the theorems above) finds
+   it in the document under that title. *)
+Theorem C11_flatten_findable :
+  forall m c doc f x, reach m [] doc f x ->
+    exists meta, In meta (doc_metas go_is_letter go_is_number go_to_lower m c doc) /\
+      (forall title ty mx, In (title, ty, mx) (snd (mlookup m f)) -> has_tokenizer ty = true ->
+         In (K_EXISTS, title_of title f) meta /\ In (title_of title f) (field_tokens meta K_EXISTS)) /\
+      (forall v, x = Some v ->
+         forall title ty mx v',
+           In ((title, ty, mx), v') (seen_by go_is_letter go_is_number go_to_lower c (snd (mlookup m f)) v) ->
+           incl (fst (tokenize_full go_is_letter go_is_number go_to_lower ty c mx v'))
+                (field_tokens meta (title_of title f)) /\
+           (forall lits,
+              query_finds lits (fst (tokenize_full go_is_letter go_is_number go_to_lower ty c mx v')) = true ->
+              query_finds lits (field_tokens meta (title_of title f)) = true)).
+Proof. exact go_flatten_findable. Qed.
+Print Assumptions C11_flatten_findable.
+
+(* "the value as this tokenizer sees it": the tokenizers lower-case in place and index() hands the same
+   slice to the tokenizer of the next title. The first title with a tokenizer sees the value itself; in
+   case-sensitive mode every title does.
+   NOT PROVED (named gap, C11_multitype_later_titles): in case-insensitive mode the tokens of a LATER
+   title computed from the half lower-cased value equal the tokens computed from the original value
+   (needs: tokens are invariant under in-place lower-casing of a prefix, for arbitrary cut positions;
+   the model does thread the mutation and the correspondence run checks it on multi-type documents). *)
+Theorem C11_flatten_value_seen_partial :
+  forall c all v,
+    (forall mt v', hd_error (seen_by go_is_letter go_is_number go_to_lower c all v) = Some (mt, v') -> v' = v) /\
+    (cs c = true ->
+     forall mt v', In (mt, v') (seen_by go_is_letter go_is_number go_to_lower c all v) -> v' = v).
+Proof. exact go_seen_value. Qed.
+Print Assumptions C11_flatten_value_seen_partial.
+
+(* Legacy parser (ParseQuery): []rune conversion up front, rune-by-rune builders with unicode.ToLower per
+   rune. Keyword: same statement as for SeqQL, WITHOUT the U+E000 hypothesis. Valid UTF-8 is needed in
+   case-sensitive mode only (same known finding); in case-insensitive mode invalid bytes are U+FFFD on
+   both sides. *)
+Theorem C11_legacy_keyword_findable :
+  forall c fmax v,
+    let p := indexed_part TyKeyword c fmax v in
+    if skipped TyKeyword c fmax v then fst (kw_tokenize go_to_lower c fmax v) = []
+    else exists t, fst (kw_tokenize go_to_lower c fmax v) = [t] /\
+         ((cs c = false \/ valid_utf8 p = true) ->
+          lq_kw go_to_lower (cs c) p = [[TText t]] /\
+          query_finds (lq_kw go_to_lower (cs c) p) (fst (kw_tokenize go_to_lower c fmax v)) = true).
+Proof. exact go_legacy_kw_consistent. Qed.
+Print Assumptions C11_legacy_keyword_findable.
+
+Theorem C11_legacy_text_words_findable :
+  forall c fmax v, v <> [] ->
+    let p := indexed_part TyText c fmax v in
+    let toks := fst (text_tokenize go_is_letter go_is_number go_to_lower c fmax v) in
+    if skipped TyText c fmax v then toks = []
+    else
+      toks = map (go_word_token c) (filter (sizeok c) (words_of go_is_letter go_is_number (segs p) []))
+      /\ (forall w, In w (words_of go_is_letter go_is_number (segs p) []) ->
+            lq_text go_is_letter go_is_number go_to_lower (cs c) w = [[TText (go_word_token c w)]]
+            /\ (sizeok c w = true ->
+                query_finds (lq_text go_is_letter go_is_number go_to_lower (cs c) w) toks = true))
+      /\ (words_of go_is_letter go_is_number (segs p) [] <> [] ->
+            lq_text go_is_letter go_is_number go_to_lower (cs c) p =
+            map (fun w => [TText (go_word_token c w)]) (words_of go_is_letter go_is_number (segs p) [])).
+Proof. exact go_legacy_text_consistent. Qed.
+Print Assumptions C11_legacy_text_words_findable.
+
+Theorem C11_legacy_path_prefix_findable :
+  forall c fmax v,
+    let p := indexed_part TyPath c fmax v in
+    let toks := fst (path_tokenize go_to_lower c fmax v) in
+    if skipped TyPath c fmax v then toks = []
+    else
+      toks = map (go_ptok c) (path_prefixes [] p ++ [p])
+      /\ (forall q, In q (path_prefixes [] p ++ [p]) -> (cs c = false \/ valid_utf8 q = true) ->
+            lq_kw go_to_lower (cs c) q = [[TText (go_ptok c q)]] /\
+            query_finds (lq_kw go_to_lower (cs c) q) toks = true).
+Proof. exact go_legacy_path_consistent. Qed.
+Print Assumptions C11_legacy_path_prefix_findable.
+
+Example C11_flatten_nonvacuous :
+  reach ex_mapping [] ex_doc [111; 46; 120] (Some [65; 98]) /\
+  reach ex_mapping [] ex_doc [116; 103; 46; 97] (Some [67; 32; 100]) /\
+  reach ex_mapping [] ex_doc [110; 115; 46; 118] (Some [69; 47; 102]) /\
+  doc_metas go_is_letter go_is_number go_to_lower ex_mapping (ICfg false false 72 32768) ex_doc =
+    [ [(K_ALL, []); ([111; 46; 120], [97; 98]); (K_EXISTS, [111; 46; 120]);
+       ([116; 103; 46; 97], [99]); ([116; 103; 46; 97], [100]); (K_EXISTS, [116; 103; 46; 97])];
+      [(K_ALL, []); ([110; 115; 46; 118], [101; 47; 102]); (K_EXISTS, [110; 115; 46; 118]);
+       ([110; 115; 46; 118; 46; 116], [101]); ([110; 115; 46; 118; 46; 116], [102]); (K_EXISTS, [110; 115; 46; 118; 46; 116]);
+       ([111; 46; 120], [97; 98]); (K_EXISTS, [111; 46; 120]);
+       ([116; 103; 46; 97], [99]); ([116; 103; 46; 97], [100]); (K_EXISTS, [116; 103; 46; 97])] ].
+Proof. exact flatten_nonvacuous. Qed.
+
+Example C11_legacy_invalid_utf8_witness :
+  let v := [97; 98; 255; 99; 100] in
+  query_finds (lq_kw go_to_lower false v) (fst (kw_tokenize go_to_lower (ICfg false false 72 32768) 0 v)) = true /\
+  query_finds (lq_kw go_to_lower true v) (fst (kw_tokenize go_to_lower (ICfg true false 72 32768) 0 v)) = false.
+Proof. exact legacy_invalid_witness. Qed.
